@@ -139,6 +139,15 @@ Theorem C24_refused_open_unchanged : forall soft o s, hnd s <> HClosed ->
 Proof. exact refused_open_unchanged. Qed.
 Print Assumptions C24_refused_open_unchanged.
 
+(* a refused statement changes nothing, for every operation and every state: whenever an operation ends in a
+   BASIC error other than Input past end the state is exactly as before; in every error case (62 included) the
+   disk contents and the bytes of the open file are unchanged.  Covers file number in use, file not found, bad
+   file mode / number, WIDTH and INPUT$ range errors, and the OPENs refused for mode letter, LEN, ACCESS, number *)
+Theorem C24_error_changes_nothing : forall soft o s e, fst (step soft o s) = [1; e] ->
+  (e <> tf_err_INPUT_PAST_END -> snd (step soft o s) = s) /\ same_files s (snd (step soft o s)).
+Proof. exact error_changes_nothing. Qed.
+Print Assumptions C24_error_changes_nothing.
+
 (* the model never runs out of fuel: INPUT# and LINE INPUT# return a value or Input past end *)
 Theorem C24_total : forall str r,
   ((exists w c r', input_entry str r = Ok (w, c, r')) \/ input_entry str r = Err tf_err_INPUT_PAST_END) /\
